@@ -99,12 +99,26 @@ def make_ag_module(base_module, mon):
     try:
       set_state(state)
     except Exception as e:  # pylint:disable=broad-except
-      mon.bad('set-state-raises', '%s%r: set_state(get_state()) raised %s: %s' % (kind, symbol_names, type(e).__name__, e))
+      import re as _re0
+      unbound_base = isinstance(e, NameError) and any(_is_undef(v, Undefined) and _re0.search(r'[.\[]', n) for n, v in zip(symbol_names, state))
+      mon.bad('set-state-raises-unbound-base' if unbound_base else 'set-state-raises',
+              '%s%r: set_state(get_state()) raised %s: %s' % (kind, symbol_names, type(e).__name__, e))
       return state
     if snapshot(frame) != before:
-      mon.bad('set-state-identity', '%s%r: set_state(get_state()) changed the caller\'s variables' % (kind, symbol_names))
+      # composite entries that read as Undefined and whose base variable is itself an (Undefined) entry of this state
+      import re as _re
+      undef_comp = [n for n, v in zip(symbol_names, state) if _is_undef(v, Undefined) and _re.search(r'[.\[]', n)]
+      undef_names = set(n for n, v in zip(symbol_names, state) if _is_undef(v, Undefined))
+      bases_in_state = bool(undef_comp) and all(
+          any(t in undef_names for t in _re.findall(r'[A-Za-z_]\w*', n) if t != n) for n in undef_comp)
+      mon.bad('set-state-identity-base-in-state' if bases_in_state else 'set-state-identity',
+              '%s%r: set_state(get_state()) changed the caller\'s variables' % (kind, symbol_names))
     # a write followed by a read returns what was written (sentinels, then restore)
-    sent = tuple(v if _is_undef(v, Undefined) else _Sentinel(i) for i, v in enumerate(state))
+    # (an entry that another composite entry is built on - p of d[p.key] - keeps its value: a sentinel there would change
+    # which location the other entry denotes)
+    import re as _re2
+    used_by_others = set(t for n in symbol_names for t in _re2.findall(r'[A-Za-z_]\w*', n) if t != n)
+    sent = tuple(v if (_is_undef(v, Undefined) or symbol_names[i] in used_by_others) else _Sentinel(i) for i, v in enumerate(state))
     try:
       set_state(sent)
       back = get_state()
@@ -130,7 +144,13 @@ def make_ag_module(base_module, mon):
       # "outputs first": a backend only propagates the first nouts entries; the rest keep their initial value
       cur = get_state()
       if len(cur) == len(init):
-        set_state(tuple(cur[:nouts]) + tuple(init[nouts:]))
+        try:
+          set_state(tuple(cur[:nouts]) + tuple(init[nouts:]))
+        except Exception:  # pylint:disable=broad-except
+          # only tolerated when an entry being written is the Undefined marker (writing it back through an unbound base
+          # cannot be done); set_state failures as such are reported by check_state
+          if not any(_is_undef(v, Undefined) for v in tuple(cur[:nouts]) + tuple(init[nouts:])):
+            raise
     return r
 
   def while_stmt(test, body, get_state, set_state, symbol_names, opts):
@@ -191,7 +211,8 @@ def make_ag_module(base_module, mon):
     if not isinstance(opts, dict) or site is None:
       return
     rest = {k: v for k, v in opts.items() if k != 'iterate_names'}
-    want = {'maximum_iterations': 1000 + site} if mon.expect_directives else {}
+    from mc import progspace
+    want = {progspace.DIRECTIVE_KEYS[site % 2]: 1000 + site} if mon.expect_directives else {}
     if rest != want:
       mon.bad('opts-directives', '%s of the loop at site %d received options %r, the user wrote %r in that loop' % (kind, site, rest, want))
 
